@@ -17,7 +17,7 @@ import time
 
 VERIF = os.path.dirname(os.path.dirname(os.path.abspath(__file__)))
 REPO = os.environ.get("PEGV_REPO", "/repo")
-CACHE = os.path.join(VERIF, ".cache")
+CACHE = os.environ.get("PEGV_CACHE", os.path.join(VERIF, ".cache"))
 DRIVER = os.path.join(VERIF, "engine", "pegmir", "target", "release", "pegmir")
 
 EXCLUDE_DIRS = {".git", "target", ".idea"}
@@ -191,9 +191,12 @@ def _add_corpus(srepo):
 
 def _prune(keep=4):
     ds = sorted(glob.glob(os.path.join(CACHE, "facts-*")), key=os.path.getmtime)
-    ds = [d for d in ds if not d.endswith(".tmp") and os.path.isdir(d)]
+    ds = [d for d in ds if ".tmp" not in os.path.basename(d) and os.path.isdir(d)]
+    now = time.time()
     for d in ds[:-keep]:
-        shutil.rmtree(d, ignore_errors=True)
+        # never remove a directory another (parallel) check may still be loading
+        if now - os.path.getmtime(d) > 1800:
+            shutil.rmtree(d, ignore_errors=True)
     for l in glob.glob(os.path.join(CACHE, "lock-*")):
         tag = os.path.basename(l)[5:]
         if not os.path.exists(os.path.join(CACHE, "facts-" + tag)):
